@@ -7,6 +7,10 @@ VARIABLE row
 N(s, i, f, u) == [sign |-> s, int |-> i, frac |-> f, unit |-> u]
 NumRows == {[kind |-> "number", n |-> N(s, i, f, u), olz |-> z] :
                s \in {"", "+", "-"}, i \in Ints, f \in Fracs, u \in Units, z \in BOOLEAN} 
+\* integers beyond 2^53 (no binary64 holds them): exact only without a fractional part, which is how they are generated
+BigInts == {<<9, 0, 0, 7, 1, 9, 9, 2, 5, 4, 7, 4, 0, 9, 9, 3>>, <<1, 2, 3, 4, 5, 6, 7, 8, 9, 0, 1, 2, 3, 4, 5, 6, 7, 8, 9, 0, 1>>,
+            <<9, 9, 9, 9, 9, 9, 9, 9, 9, 9, 9, 9, 9, 9, 9, 9, 9>>}
+BigRows == {[kind |-> "number", n |-> N(s, i, <<>>, u), olz |-> z] : s \in {"", "+", "-"}, i \in BigInts, u \in Units, z \in BOOLEAN}
 Hex == 0..15
 ShortHashes == [1..3 -> Hex]
 LongHashes == {h \in [1..6 -> BoundaryHex] : TRUE}
@@ -17,7 +21,7 @@ ColourRows == {[kind |-> "colour", rgb |-> <<r, g, b>>, alpha |-> a] : r \in Gri
 Atoms == {"solid", "1px", "50%", "\"s\"", "url(x)", "#abc", "f(1, 2)"}
 ListRows == {[kind |-> "list", comps |-> <<a, s, b>>] : a \in Atoms, s \in {" ", ",", "/"}, b \in Atoms}
             \cup {[kind |-> "list", comps |-> <<a, s, b, t, c>>] : a \in {"solid", "1px"}, s \in {" ", ",", "/"}, b \in Atoms, t \in {" ", ",", "/"}, c \in {"solid", "50%"}}
-Rows == {r \in NumRows : ~(r.n.int = <<>> /\ r.n.frac = <<>>)} \cup HashRows \cup ColourRows \cup ListRows
+Rows == {r \in NumRows : ~(r.n.int = <<>> /\ r.n.frac = <<>>)} \cup BigRows \cup HashRows \cup ColourRows \cup ListRows
 Init == row \in Rows
 Next == UNCHANGED row
 Spec == Init /\ [][Next]_row
